@@ -133,6 +133,13 @@ def to_model(c):
 def _dump_twice(o):
     try:
         a = o.dumps()
+        if hasattr(o, "dump_for_tree") and hasattr(o, "extra_files"):
+            # the per-tree writer of extra files, for every cell and a base path that prefixes what is stored there
+            import io
+            for v in sorted(o.extra_files):
+                for ar in sorted(o.extra_files[v]):
+                    for base in ("Server/x86_64/os", "Server", ""):
+                        o.dump_for_tree(io.StringIO(), v, ar, base)
         b = o.dumps()
     except EXC as e:
         return exc_result(e)
